@@ -124,6 +124,74 @@ def tuple_iterable(rng):
     return fails, {'scenario': 'tuple_iterable', 'type': type(source).__name__, 'size': size}
 
 
+def huge_bytes_payload(rng):
+    """a bytes-like payload of 2^32 bytes or more cannot be announced by a First Frame: send() refuses it with ValueError, whatever the
+    kind of the payload (the (generator, size) form is covered by the huge campaign)"""
+    fails = []
+    try:
+        data = bytes(2**32 + rng.choice([0, 1, 5]))      # zero pages, never touched
+    except MemoryError:
+        return [], {'scenario': 'huge_bytes_payload', 'skipped': 'no memory for the payload object'}
+    clock = VClock().install()
+    try:
+        sent, inbox = [], []
+        l = mk({}, clock, sent, inbox)
+        try:
+            l.send(data)
+            out = 'accepted'
+        except ValueError:
+            out = 'valueerror'
+        except Exception as e:
+            out = type(e).__name__
+        if out != 'valueerror':
+            l.process()
+            first = bytes(sent[0].data).hex() if sent else None
+            fails.append(('size-2^32-accepted', 'send(bytes(%d)): %s; first frame %s' % (len(data), out, first)))
+    finally:
+        clock.uninstall()
+        del data
+    return fails, {'scenario': 'huge_bytes_payload'}
+
+
+def no_buffering(rng):
+    """a (generator, size) payload is streamed: while a 1 MB transfer is under way the library holds on to a few kilobytes, not to the
+    values it has already sent"""
+    import tracemalloc
+    import gc
+    size = 1024 * 1024
+    clock = VClock().install()
+    fails = []
+    try:
+        inbox = []
+        l = isotp.TransportLayerLogic(rxfn=lambda: inbox.pop(0) if inbox else None, txfn=lambda m: None,
+                                      address=isotp.Address(isotp.AddressingMode.Normal_11bits, **PHYS),
+                                      params={'tx_data_length': 64, 'can_fd': True, 'stmin': 0})
+
+        def g():
+            for i in range(size):
+                yield i & 0xFF
+        gc.collect()
+        tracemalloc.start()
+        base = tracemalloc.get_traced_memory()[0]
+        l.send((g(), size))
+        l.process()
+        peak_retained = 0
+        for step in range(400):
+            inbox.append(fcmsg(200, 0))             # blocks of 200 frames: the transfer spans many passes
+            l.process()
+            if not l.transmitting():
+                break
+            if step % 8 == 0:
+                gc.collect()
+                peak_retained = max(peak_retained, tracemalloc.get_traced_memory()[0] - base)
+        tracemalloc.stop()
+        if peak_retained > 256 * 1024:
+            fails.append(('payload-buffered', 'streaming %d bytes from a generator: %d bytes still held by the library after the frames were handed over' % (size, peak_retained)))
+    finally:
+        clock.uninstall()
+    return fails, {'scenario': 'no_buffering'}
+
+
 # ---------------------------------------------------------------- C03
 def blocked_recv(rng):
     """a consumer thread is already blocked in recv(block=True, timeout) when clear_rx_queue() / reset() is called; the message received
@@ -799,6 +867,45 @@ def very_long_reception(rng):
     return fails, {'scenario': 'very_long_reception', 'bs': bs, 'ncf': ncf}
 
 
+def raising_handler_interrupt(rng):
+    """an error handler that raises (the application catches the exception around process() and carries on): a reception interrupted by
+    a Single Frame or a First Frame is abandoned all the same - the Consecutive Frames of the old message that still arrive are not
+    assembled into a delivery"""
+    clock = VClock().install()
+    fails = []
+    try:
+        sent, inbox = [], []
+
+        def handler(e):
+            raise RuntimeError('handler does not like ' + type(e).__name__)
+        l = isotp.TransportLayerLogic(rxfn=lambda: inbox.pop(0) if inbox else None, txfn=sent.append, address=isotp.Address(isotp.AddressingMode.Normal_11bits, **PHYS),
+                                      params={'blocksize': 0}, error_handler=handler)
+        n = 27
+        payload = bytes(range(n))
+        frames = [bytes([0x10, n]) + payload[:6]]
+        rest, sn = payload[6:], 1
+        while rest:
+            frames.append(bytes([0x20 | sn]) + rest[:7]); rest, sn = rest[7:], (sn + 1) & 0xF
+        cut = rng.randint(1, len(frames) - 1)
+        intr = bytes([3, 0xA1, 0xA2, 0xA3]) if rng.random() < 0.5 else bytes([0x10, 9, 1, 2, 3, 4, 5, 6])
+        delivered = []
+        for f in frames[:cut] + [intr] + frames[cut:]:
+            inbox.append(isotp.CanMessage(arbitration_id=0x222, data=f))
+            for _ in range(2):
+                try:
+                    l.process()
+                except RuntimeError:
+                    pass
+            while l.available():
+                delivered.append(bytes(l.recv()))
+        if payload in delivered:
+            fails.append(('aborted-message-delivered', 'reception interrupted by %s after frame %d, error handler raising: the interrupted %d-byte message was delivered all the same' % (
+                'a Single Frame' if intr[0] >> 4 == 0 else 'a First Frame', cut, n)))
+    finally:
+        clock.uninstall()
+    return fails, {'scenario': 'raising_handler_interrupt'}
+
+
 # ---------------------------------------------------------------- C03 (threaded)
 def idle_stop_receiving_threaded(rng):
     """stop_receiving() on a started layer that is receiving nothing is a no-op: the next segmented message, sent slowly (gaps longer than
@@ -1082,11 +1189,11 @@ def failed_kernel_bind(rng):
 
 
 SCENARIOS = {
-    'C01': [reload_midstream], 'C04': [reload_midstream, txfn_raises, overflow_while_streaming], 'C02': [tuple_iterable], 'C17': [tuple_iterable], 'C03': [blocked_recv, fc_not_throttled, idle_stop_receiving_threaded, very_long_reception], 'C06': [fc_not_throttled],
+    'C01': [reload_midstream], 'C04': [reload_midstream, txfn_raises, overflow_while_streaming], 'C02': [tuple_iterable, huge_bytes_payload], 'C17': [tuple_iterable, no_buffering], 'C03': [blocked_recv, fc_not_throttled, idle_stop_receiving_threaded, very_long_reception], 'C06': [fc_not_throttled, raising_handler_interrupt],
     'C05': [clear_midreception], 'C07': [retimed, legacy_rx_deadline], 'C08': [slow_generator, stmin_raised_under_limiter], 'C10': [positional_process, very_long_reception], 'C12': [set_address_standby, stop_sending_while_streaming],
     'C13': [send_before_start, functional_to_threaded], 'C14': [legacy_sleep_timing, stop_with_backlog, start_after_worker_crash], 'C11': [threaded_receiver_times_out, dup_fc_during_standby], 'C18': [listen_switch], 'C15': [bystander_layer, slow_txfn], 'C19': [failed_kernel_bind], 'C20': [failed_kernel_bind],
 }
-REPS = {'functional_to_threaded': 4, 'start_after_worker_crash': 1, 'overflow_while_streaming': 2, 'stop_sending_while_streaming': 2, 'very_long_reception': 1, 'stop_with_backlog': 1, 'threaded_receiver_times_out': 2, 'idle_stop_receiving_threaded': 2, 'failed_kernel_bind': 6, 'blocked_recv': 4, 'send_before_start': 3, 'legacy_sleep_timing': 1, 'positional_process': 1}
+REPS = {'huge_bytes_payload': 2, 'no_buffering': 1, 'functional_to_threaded': 4, 'start_after_worker_crash': 1, 'overflow_while_streaming': 2, 'stop_sending_while_streaming': 2, 'very_long_reception': 1, 'stop_with_backlog': 1, 'threaded_receiver_times_out': 2, 'idle_stop_receiving_threaded': 2, 'failed_kernel_bind': 6, 'blocked_recv': 4, 'send_before_start': 3, 'legacy_sleep_timing': 1, 'positional_process': 1}
 TEXT = {f.__name__: ' '.join(f.__doc__.split()) for fs in SCENARIOS.values() for f in fs}
 
 
